@@ -389,7 +389,7 @@ def run(ctx):
             cfg = mk_cfg(rng, "client")
             cfg["chunkmode"] = "attr"
             traces.append(run_case(cfg, body, [chunk] if chunk else [], random_cuts(rng, 3 * len(body) + 5)))
-    ctx.exhaustive = True
+    ctx.exhaustive = False   # the class-level space is enumerated completely, byte values and wire splits are sampled
     ctx.extra["exhaustive_bodies"] = "all bodies of <= %d lines x <= %d symbols over %s, read sizes %s (0 = unbounded)" % (maxlines, maxsym, alphabet, ctx.pick("1,2,3,0", "1..5,0"))
     for _ in range(ctx.pick(500, 15000)):
         body = concretise(rng, random_body(rng))
